@@ -277,35 +277,96 @@ theorem mapLocs_fresh {rec : LHeap → MLoc → Option (MLoc × LHeap)} (hrec : 
   have p := mapLoop2_fresh hrec src m.2 _ _ _ _ h1 m.1 (closed_mk (closed_self h) _ _)
   exact ⟨p.1, p.2, rfl⟩
 
-/-- **`Expand` is fresh**, for every fuel, heap, receiver, position and amount -/
-theorem expandMem_fresh (g : Grow) (i n : Int) : ∀ k, MapFresh (expandMem g i n k) := by
+/-- the common shape of `Expand` / `Shift` / `Normalize` is fresh when the method of the contiguous
+kinds is -/
+theorem methMem_fresh (g : Grow) {leafM : Nat → LHeap → Loc → Option (MLoc × LHeap)}
+    (hleaf : ∀ k h l r, leafM k h l = some r → PostM h.length h r) :
+    ∀ k, MapFresh (methMem leafM g k) := by
   intro k
   induction k with
-  | zero => intro h m r he; simp [expandMem] at he
+  | zero => intro h m r he; simp [methMem] at he
   | succ k ih =>
     intro h m r he
     cases m with
     | leaf l =>
-      simp only [expandMem, Option.some.injEq] at he
-      subst he
-      exact ⟨List.prefix_refl _, closed_self h, trivial⟩
+      simp only [methMem] at he
+      exact hleaf k h l r he
     | joined s =>
-      simp only [expandMem] at he
+      simp only [methMem] at he
       obtain ⟨r1, h1, h2⟩ := Option.bind_eq_some_iff.1 he
       have p1 := mapLocs_fresh ih h1
       have p2 := joinLocs_fresh g (k + 1) (Nat.le_of_eq p1.2.2.symm) h2 p1.1.length_le p1.2.1
       exact ⟨p1.1.trans p2.pre, p2.closed, p2.refs⟩
     | ordered s =>
-      simp only [expandMem] at he
+      simp only [methMem] at he
       obtain ⟨r1, h1, h2⟩ := Option.bind_eq_some_iff.1 he
       have p1 := mapLocs_fresh ih h1
       have p2 := orderLocs_fresh g (k + 1) (Nat.le_of_eq p1.2.2.symm) h2 p1.1.length_le p1.2.1
       exact ⟨p1.1.trans p2.pre, p2.closed, p2.refs⟩
     | compl m =>
-      simp only [expandMem] at he
+      simp only [methMem] at he
       obtain ⟨r1, h1, h2⟩ := Option.map_eq_some_iff.1 he
       subst h2
       have p := ih h m r1 h1
       exact ⟨p.pre, p.closed, p.refs⟩
+
+/-- a method that returns a value allocates nothing -/
+theorem post_value (h : LHeap) (l : Loc) : PostM h.length h (MLoc.leaf l, h) :=
+  ⟨List.prefix_refl _, closed_self h, trivial⟩
+
+/-- `Join(left, right)` / `Order(left, right)` of two new values: the argument slice is new -/
+theorem lit_join_fresh (g : Grow) (k : Nat) (h : LHeap) (ls : List Loc) {r : MLoc × LHeap}
+    (he : joinLocs g k (litSlice h (ls.map MLoc.leaf)).2 (litSlice h (ls.map MLoc.leaf)).1 = some r) :
+    PostM h.length h r := by
+  have o := litSlice_owned (List.prefix_refl h) (ls.map MLoc.leaf)
+  have c := litSlice_closed (closed_self h) (xs := ls.map MLoc.leaf)
+    (fun c hc => by obtain ⟨l, _, rfl⟩ := List.mem_map.1 hc; trivial)
+  have p := joinLocs_fresh g k (n := h.length) (Nat.le_refl _) he o.pre.length_le c
+  exact ⟨o.pre.trans p.pre, p.closed, p.refs⟩
+
+theorem lit_order_fresh (g : Grow) (k : Nat) (h : LHeap) (ls : List Loc) {r : MLoc × LHeap}
+    (he : orderLocs g k (litSlice h (ls.map MLoc.leaf)).2 (litSlice h (ls.map MLoc.leaf)).1 = some r) :
+    PostM h.length h r := by
+  have o := litSlice_owned (List.prefix_refl h) (ls.map MLoc.leaf)
+  have c := litSlice_closed (closed_self h) (xs := ls.map MLoc.leaf)
+    (fun c hc => by obtain ⟨l, _, rfl⟩ := List.mem_map.1 hc; trivial)
+  have p := orderLocs_fresh g k (n := h.length) (Nat.le_refl _) he o.pre.length_le c
+  exact ⟨o.pre.trans p.pre, p.closed, p.refs⟩
+
+/-- **`Expand` is fresh**, for every fuel, heap, receiver, position and amount -/
+theorem expandMem_fresh (g : Grow) (i n : Int) : ∀ k, MapFresh (expandMem g i n k) :=
+  methMem_fresh g fun _ h l r he => by
+    simp only [Option.some.injEq] at he
+    subst he
+    exact post_value h _
+
+theorem shiftLeaf_fresh (g : Grow) (i n : Int) (k : Nat) (h : LHeap) (l : Loc) (r : MLoc × LHeap)
+    (he : shiftLeaf g i n k h l = some r) : PostM h.length h r := by
+  unfold shiftLeaf at he
+  split at he
+  · split at he
+    · exact lit_join_fresh g k h [_, _] he
+    · simp only [Option.some.injEq] at he; subst he; exact post_value h _
+  · split at he
+    · exact lit_order_fresh g k h [_, _] he
+    · simp only [Option.some.injEq] at he; subst he; exact post_value h _
+  · simp only [Option.some.injEq] at he; subst he; exact post_value h _
+
+/-- **`Shift` is fresh** -/
+theorem shiftMem_fresh (g : Grow) (i n : Int) : ∀ k, MapFresh (shiftMem g i n k) :=
+  methMem_fresh g (shiftLeaf_fresh g i n)
+
+theorem normalizeLeaf_fresh (g : Grow) (len : Int) (k : Nat) (h : LHeap) (l : Loc) (r : MLoc × LHeap)
+    (he : normalizeLeaf g len k h l = some r) : PostM h.length h r := by
+  unfold normalizeLeaf at he
+  split at he
+  · split at he
+    · exact lit_join_fresh g k h [_, _] he
+    · simp only [Option.some.injEq] at he; subst he; exact post_value h _
+  · simp only [Option.some.injEq] at he; subst he; exact post_value h _
+
+/-- **`Normalize` is fresh** -/
+theorem normalizeMem_fresh (g : Grow) (len : Int) : ∀ k, MapFresh (normalizeMem g len k) :=
+  methMem_fresh g (normalizeLeaf_fresh g len)
 
 end Gts.Mem
